@@ -364,13 +364,17 @@ def printDirectiveDefinition (s : SchemaD) (o : Opts) (apps : Apps) (d : Directi
   let a := printArguments s o apps ("@" ++ d.name) d.args 0 st
   (printDescription o d.desc ++ "directive @" ++ d.name ++ a.1 ++ " on " ++ " | ".intercalate d.locations, a.2)
 
+/-- `_is_implied(root_type, default_name)` (fix H9): re-reading the document without a `schema` block infers this
+    root — a PRESENT root must carry the conventional name, an ABSENT root requires that no type of that name exists -/
+def rootImplied (s : SchemaD) (r : Option String) (n : String) : Bool :=
+  match r with | none => !s.types.any (·.name == n) | some x => x == n
+
 def printSchemaDefinition (s : SchemaD) (o : Opts) (apps : Apps) (st : PrinterState) : String × PrinterState :=
   let d := printDirectives o apps "" st
-  let dflt (r : Option String) (n : String) := match r with | none => true | some x => x == n
   let ops := (match s.query with | some q => [o.indent ++ "query: " ++ q] | none => [])
     ++ (match s.mutation with | some q => [o.indent ++ "mutation: " ++ q] | none => [])
     ++ (match s.subscription with | some q => [o.indent ++ "subscription: " ++ q] | none => [])
-  (if d.1.isEmpty && dflt s.query "Query" && dflt s.mutation "Mutation" && dflt s.subscription "Subscription" then ""
+  (if d.1.isEmpty && rootImplied s s.query "Query" && rootImplied s s.mutation "Mutation" && rootImplied s s.subscription "Subscription" then ""
    else "schema" ++ d.1 ++ " {\n" ++ "\n".intercalate ops ++ "\n}", d.2)
 
 def insertSorted {α} (key : α → String) (x : α) : List α → List α
@@ -424,10 +428,9 @@ def directiveToDef (s : SchemaD) (d : DirectiveD) : DirDef :=
   { name := d.name, desc := descToDoc d.desc, args := d.args.map (argToDef s), locations := d.locations }
 
 /-- `print_schema_definition` (without schema-level directive applications): the `schema { … }` block is written
-    unless every root that is set carries its conventional name -/
+    unless every root is implied (`rootImplied`) -/
 def needsSchemaBlock (s : SchemaD) : Bool :=
-  let dflt (r : Option String) (n : String) := match r with | none => true | some x => x == n
-  !(dflt s.query "Query" && dflt s.mutation "Mutation" && dflt s.subscription "Subscription")
+  !(rootImplied s s.query "Query" && rootImplied s s.mutation "Mutation" && rootImplied s s.subscription "Subscription")
 
 def rootOps (s : SchemaD) : List (String × String) :=
   (match s.query with | some q => [("query", q)] | none => []) ++
